@@ -149,6 +149,8 @@ impl TransactionManager {
         // commit and gc run under the same lock, so a transaction can never hold a
         // start epoch while gc, not seeing it yet, discards the commits it must
         // still be checked against.
+        #[cfg(grafeodb_grafeo_verif)]
+        grafeo_common::verif::yield_point("tx.begin.register");
         let mut txns = self.transactions.write();
         let epoch = EpochId::new(self.current_epoch.load(Ordering::Acquire));
 
